@@ -439,6 +439,18 @@ func runC16(c *Ctx) {
 	// R5 diversity counting
 	c.Rule("R5")
 	c16R5(c)
+	// the limit the caller configured (0 = filter off) is the one GetClosestPeers uses: the config
+	// field is written by its option only, never adjusted afterwards
+	for _, g := range p.Funcs() {
+		for _, acc := range g.FieldAccesses("dht/fullrt.config.ipDiversityFilterLimit") {
+			if !acc.Write {
+				continue
+			}
+			root := g.Root()
+			ok := g.Lit != nil && root.Obj != nil && root.Obj.Exported() && root.Name != "dht/fullrt.NewFullRT"
+			c.Check(K(g.Name, "writes the diversity limit"), acc.Sel.Pos(), ok, "config.ipDiversityFilterLimit is assigned only by its option function (a later 'zero means default' pass would turn the documented 'off' into a limit)", "assigned in "+root.Name)
+		}
+	}
 
 	// R6 empty inputs
 	c.Rule("R6")
